@@ -196,11 +196,39 @@ def unit_iteration_on_policy(S):
                     what="environment i collects with key split(rollout_key, num_envs)[i]")
 
 
+def native_dqn_target_replay(model):
+    """R1: the real DQN.per_iteration on a real DQNState (MLPQPolicy) for a grid of (num_envs, num_steps, interval, count), the counter-model's values first."""
+    from lerax.policy import MLPQPolicy
+    env = GenericEnv(Discrete(3), observation_space=OBS)
+    p_on = MLPQPolicy(env, width_size=4, depth=1, key=jax.random.key(0))
+    p_tg = MLPQPolicy(env, width_size=4, depth=1, key=jax.random.key(1))
+    cands = []
+    try:
+        v = [int(kit.model_float(model, n, 0)) for n in ("N", "T", "interval", "st.iteration_count")]
+        if v[0] >= 1 and v[1] >= 1 and v[2] >= 1 and v[3] >= 0:
+            cands.append(tuple(v))
+    except Exception:
+        pass
+    cands += [(n, t, i, c) for n in (1, 2, 3) for t in (1, 2, 4) for i in (1, 2, 4, 6) for c in range(0, 13)]
+    for n, t, i, c in cands[:400]:
+        algo = DQN(num_envs=n, num_steps=t, buffer_size=8, learning_starts=1, batch_size=1, target_update_interval=i)
+        st = DQNState(jnp.asarray(c), None, env, p_on, None, None, target_policy=p_tg)
+        out = algo.per_iteration(st)
+        exp = p_on if c % i == 0 else p_tg
+        same = all(bool(jnp.array_equal(a, b)) for a, b in zip(jax.tree.leaves(eqx.filter(out.target_policy, eqx.is_array)), jax.tree.leaves(eqx.filter(exp, eqx.is_array))))
+        if not same:
+            return dict(reproduced=True, route="R1 (real DQN.per_iteration on a real DQNState with MLPQPolicy networks)", inputs=dict(num_envs=n, num_steps=t, target_update_interval=i, iteration_count=c),
+                        observed=dict(target_after=("online" if c % i != 0 else "old target"), expected=("online" if c % i == 0 else "old target")))
+    return dict(reproduced=False, note=f"{min(len(cands), 400)} (num_envs, num_steps, interval, count) combinations agree")
+
+
 def unit_dqn(S):
     fnp = "lerax.algorithm.dqn:DQN.per_iteration"
     S.under_contract(fnp, "lerax.algorithm.dqn:DQN.iteration")
     ctx = Ctx()
-    algo = DQN(num_envs=1, buffer_size=8, learning_starts=1, batch_size=1)
+    # every hyper-parameter the schedule could (wrongly) depend on is symbolic: num_envs, num_steps (dimension variables), the interval (integer input)
+    Nn, Tn = symbolic_dims("N, T")
+    algo = DQN(num_envs=Nn, num_steps=Tn, buffer_size=8, learning_starts=1, batch_size=1)
     I, Ic = kit.int_scalar("interval")
     algo = eqx.tree_at(lambda a: a.target_update_interval, algo, I)
     env0 = GenericEnv(Discrete(3), observation_space=OBS)
@@ -210,9 +238,9 @@ def unit_dqn(S):
     st = sym(ctx, "st", jax.eval_shape(mk, sd((), jnp.int32), sd((2,), f32), sd((1,), f32), sd((1,), f32), sd((2,), f32), sd((3,), f32), sd((1,), f32), sd((2,), f32)))
     out = run(ctx, lambda a, s: a.per_iteration(s), algo, st)
     c = st.iteration_count.scalar()
-    hyp = [Ic >= 1, c >= 0]
+    hyp = [Ic >= 1, c >= 0, ctx.dim(Nn) >= 1, ctx.dim(Tn) >= 1]
     S.prove("DQN.per_iteration/hard-update-on-multiples", ctx, sand(*[ir.seq(out.target_policy.theta.at(i), z3.If(c % Ic == 0, st.policy.theta.at(i), st.target_policy.theta.at(i))) for i in range(2)]),
-            hyps=hyp, function=fnp, what="target' = online network if iteration_count mod interval == 0 else target (leaf-wise)")
+            hyps=hyp, function=fnp, replay=native_dqn_target_replay, what="target' = online network if iteration_count mod interval == 0 else target (leaf-wise), for every num_envs, num_steps")
     frame = sand(kit.tree_eq(out.policy, st.policy), kit.tree_eq(out.step_state, st.step_state), kit.tree_eq(out.opt_state, st.opt_state),
                  ir.seq(out.iteration_count.scalar(), c), kit.tree_eq(out.callback_state, st.callback_state))
     S.prove("DQN.per_iteration/frame", ctx, frame, hyps=hyp, function=fnp, what="frame: nothing but the target network changes")
@@ -240,7 +268,7 @@ def unit_dqn(S):
     # DQN.iteration: dqn_train gets the CURRENT target; per_iteration applied once after next
     ctx3 = Ctx()
     st = sym(ctx3, "st", jax.eval_shape(mk, sd((), jnp.int32), sd((2,), f32), sd((1,), f32), sd((1,), f32), sd((2,), f32), sd((3,), f32), sd((1,), f32), sd((2,), f32)))
-    algo3 = eqx.tree_at(lambda a: a.target_update_interval, DQN(num_envs=1, buffer_size=8, learning_starts=1, batch_size=1), I)
+    algo3 = eqx.tree_at(lambda a: a.target_update_interval, DQN(num_envs=1, num_steps=Tn, buffer_size=8, learning_starts=1, batch_size=1), I)
     ss_struct = jax.tree.map(lambda x: sd(x.shape, x.dtype), _onpolicy_state(env0, pol0).step_state)
 
     class _SS(eqx.Module):
@@ -383,18 +411,18 @@ def unit_sac_gating(S):
     from contracts import C07
     fn = "lerax.algorithm.sac:SAC.sac_train"
     S.under_contract(fn)
-    (T,) = symbolic_dims("T")
+    T, NE = symbolic_dims("T, NE")
     for autotune in (True, False):
         ctx = Ctx()
         ctx.unroll_limit = 8
         d = C07._sac_setup(ctx, autotune, 2)
         F, Fc = kit.int_scalar("policy_frequency")
-        d["algo"] = eqx.tree_at(lambda a: (a.policy_frequency, a.num_steps), d["algo"], (F, T))
+        d["algo"] = eqx.tree_at(lambda a: (a.policy_frequency, a.num_steps, a.num_envs), d["algo"], (F, T, NE))
         out = C07._run_sac(ctx, d)
         newpol, nost, nq1, nq2, nqost, nla, naost, log = out
         it = d["itc"]
         Tz = ctx.dim(T)
-        hyp = [Fc >= 1, it >= 0, Tz >= 1]
+        hyp = [Fc >= 1, it >= 0, Tz >= 1, ctx.dim(NE) >= 1]
         off = it % Fc != 0
         tag = f"sac_train[autotune={autotune}]"
         S.prove(f"{tag}/actor-frozen-off-schedule", ctx, z3.Implies(off, z3.And(kit.tree_eq(newpol, d["pol"]), kit.tree_eq(nost, d["ost"]))), hyps=hyp, function=fn, replay=native_sac_gating_replay(autotune, "actor"),
